@@ -30,6 +30,10 @@ CHECKS = {
    "explicit-state BFS to closure over the real lock table (two protocol-following owners + LiteFS's internal owner) compared with a POSIX byte-range lock specification; plus schedule DFS with a write-section monitor",
    "Part A: from the empty table every request the rollback-mode (PENDING/RESERVED/SHARED) or WAL-mode (DMS/WRITE/CKPT/RECOVER/READ0-4, single and range requests) protocol automaton of two owners can issue, every TryAcquireWriteLock/release of the internal owner and WAL header/frame/data writes are executed on one real DB until no new lock-table state appears (about 4.6x10^4 states, 8.8x10^5 transitions in WAL mode); each outcome, the resulting table, the all-or-nothing behaviour of the internal attempt, the checkpoint-gating rule, the exclusion invariant and the WAL write guard are compared with the specification. Part B: all schedules up to 2 (thorough 3) preemptions of an application transaction or reader against Store.Recover and against a replicated apply, with a monitor in every page write (internal writes only under the full exclusive write set held by a non-client owner).",
    "One lock per SQLite lock byte; partial grants of refused multi-byte requests follow LiteFS's order; WAL write guard checked as 'no owner holds WRITE exclusively'. Cooperative scheduler limits as in C10.", "§4 C11"),
+ "C13": ("exploration", "E1-scenarios+E2-schedules",
+   "exhaustive scenario matrix on a real 3-node cluster (real /halt, /tx, /stream handlers and FUSE lock handle) plus stateless schedule DFS with preemption bounding of holder, local writer and lock expiry",
+   "Part A: every scenario {acquire -> writer on primary refused -> two forwarded commits (primary position equals replica's at commit return, third replica converges) -> repeat acquire with same ID -> release -> primary writes, former holder refused and unpublished; expiry; expiry then commit; lost reply of POST /halt, POST /tx, DELETE /halt; POST /tx caller matrix lock state x lock ID x node ID} x both journal modes. Part B: all schedules up to 2 (thorough 3) preemptions of the application on the replica, a local writer on the primary and the lock's expiry, judged by: no local commit between grant and release, acknowledged commit already on the primary, one converged history on all three nodes, no exit, no handler panic.",
+   "Kernel/SQLite simulated; a WAL-mode commit that fails in its final phase stops the node by design and is accepted as such. Primary change while halted is not enumerated.", "§4 C13"),
  "C12": ("model_checking", "E1-closure+fake-clock",
    "explicit-state BFS to closure over the real RWMutex (private-state key) vs POSIX one-byte model; exhaustive blocking-variant matrix on the synctest fake clock",
    "Every operation from every reachable state of one real RWMutex with four guards is executed and compared with the reader/writer rules (20 states x 20 operations, closure reached); blocking Lock/RLock are decided for every holder/waiter/event/timing combination on a fake clock. Complete for the stated alphabet, which is the property's own quantifier.",
